@@ -65,6 +65,8 @@ def value_layouts():
     fields = [("EN", xdoc.ptype_num("enum", xdoc.numeric_enc("int", 2), enum=en), 2), ("BO", xdoc.ptype_num("bool", xdoc.numeric_enc("int", 1)), 1),
               ("PAD", uint(5), 5), ("BO8", xdoc.ptype_num("bool", xdoc.numeric_enc("int", 8)), 8),
               ("ENS", xdoc.ptype_num("enum", xdoc.numeric_enc("int", 8, "signed"), enum=[{"raw": crit.tv_int(v), "label": f"N{v}"} for v in (-1, 0, 1, -128, 127)]), 8), ("CAL", xdoc.ptype_num("int", xdoc.numeric_enc("int", 8), cal), 8),
+              ("CTX", xdoc.ptype_num("int", xdoc.numeric_enc("int", 16), {"default": {"k": "none"}, "context": [
+                  {"crit": [{"k": "cmp", "ref": "BO", "op": "==", "cal": False, "lit": crit.lit_num(False, 1)}], "cal": poly([(rat(1, 4), 0), (rat(3, 2), 1)])}]}), 16),
               ("TM", dict(xdoc.ptype_num("abstime", xdoc.numeric_enc("int", 8), {"default": poly([(rat(5, 2), 0), (rat(1, 4), 1)]), "context": []}, unit="s"), epoch="TAI"), 8)]
     out.append((12, fields))
     fields = [("STR", xdoc.ptype_sb({"k": "str", "len": {"k": "fixed", "n": 48}, "delim": WHOLE, "codec": "UTF-8"}), 48),
